@@ -832,6 +832,11 @@ class Exec(object):
             if v.t.kind == 'map': return SV(MAP(v.t.args[0], v.t.args[1]), v.z) if v.t.args[2] is None else v
         raise Unsupported('dict(...)')
 
+    def b_print_state_set(self, p, e):
+        v = self.ev(p, e.args[0])
+        if v.t != SET(ATOM): raise Unsupported('print_state_set of %s' % v.t)
+        return SV(ATOM, T.name_of_set(v.z))
+
     def b_print(self, p, e): return SV(NONE, parts(NONE)[1])
     def b_log(self, p, e): return SV(NONE, parts(NONE)[1])     # gambatools.logging.log: no effect on results (arguments are pure printers)
 
@@ -905,7 +910,13 @@ class Exec(object):
             elif name == 'update': nv = S.union(o, args[0]); res = None
         elif o.t.kind == 'list':
             et = o.t.args[0]; n = list_len(o); arr = list_arr(o)
-            if name == 'append': nv = mk_list(o.t, n + 1, Store(arr, n, self.coerce(args[0], et).z)); res = None
+            if name == 'append':
+                # the new array is a fresh constant related to the old one by a frame fact with triggers on BOTH arrays, so that
+                # facts about old cells (arr[i]) instantiate quantified goals about the new list and vice versa
+                av = self.coerce(args[0], et).z; arr2 = fresh_z('arr', arr.sort()); i_ = fresh_z('i', z3.IntSort())
+                p.pc.append(Select(arr2, n) == av)
+                p.pc.append(ForAll([i_], Implies(i_ != n, Select(arr2, i_) == Select(arr, i_)), patterns=[Select(arr, i_), Select(arr2, i_)]))
+                nv = mk_list(o.t, n + 1, arr2); res = None
             elif name == 'pop' and not args:
                 self.oblig(p, 'pop-nonempty:%d' % e.lineno, 'safety', n > 0, e.lineno)
                 nv = mk_list(o.t, n - 1, arr); res = SV(et, Select(arr, n - 1))
@@ -1063,6 +1074,8 @@ class Exec(object):
         for n in c.modifies:
             if self.has_bound_vars(): raise Unsupported('mutating call under binders')
             post_env[n] = fresh(n + '_after', args[n].t)
+            p.pc += self.type_inv(post_env[n])
+        if not self.has_bound_vars(): p.pc += self.type_inv(res)
         q = Path(); q.env = post_env; q.old = old_env; q.pc = p.pc
         for g_, src in c.ghost.items(): q.ghost[g_] = self.ev_spec_in(p, src, dict(old_env))
         saved_res, saved_mode = self.result, self.spec_mode
@@ -1237,12 +1250,23 @@ class Exec(object):
         if L is None: raise Unsupported('loop %d (line %d) has no invariant' % (n, st.lineno))
         return n, L
 
+    def type_inv(self, v):
+        """facts that hold of every Python value of the type: list lengths are non-negative (also for lists in tuples / records)"""
+        t = v.t; out = []
+        if t.kind == 'list': out.append(list_len(v) >= 0)
+        elif t.kind == 'tup':
+            for i in range(len(t.args)): out += self.type_inv(tup_get(v, i))
+        elif t.kind == 'rec':
+            for f_ in RECORDS[t.args[0]]: out += self.type_inv(rec_get(v, f_))
+        return out
+
     def havoc(self, p, names):
         for nm in names:
             if nm in p.alias:
                 base, _ = p.alias[nm]; nm = base
             if nm in p.env and isinstance(p.env[nm], SV):
                 p.env[nm] = fresh(nm, p.env[nm].t)
+                p.pc += self.type_inv(p.env[nm])
 
     def check_inv(self, p, n, L, tag):
         for i, inv in enumerate(L['invariant']):
@@ -1376,6 +1400,7 @@ class Exec(object):
         p = Path()
         for n, t in c.param_types.items():
             p.env[n] = SV(t, z3.Const(n, sort_of(t)))
+            p.pc += self.type_inv(p.env[n])
         p.old = dict(p.env)
         for g, src in c.ghost.items():
             p.ghost[g] = self.spec_term(p, src)
